@@ -120,8 +120,22 @@ def P_from(a, b, form="from"):
     return Program(f"(from {a.sexp()} {b.sexp()})", [("a", a.rust())], body, f"B::{form}(a)")
 
 
+UNIT_FORMS = ("new", "get", "floor", "ceil", "round", "trunc", "fract", "format_args", "into_format_args")
+
+
 def P_unit(q, um, unit, form="new"):
-    body = f"d(&<{q.rust()}>::new::<uom::si::{um}::{unit}>(1.0))" if form == "new" else f"let _v: f64 = a.get::<uom::si::{um}::{unit}>(); String::new()"
+    """Every method that takes a unit N of the quantity: new/get, the five roundings, and the two formatting entry points."""
+    n = f"uom::si::{um}::{unit}"
+    if form == "new":
+        body = f"d(&<{q.rust()}>::new::<{n}>(1.0))"
+    elif form == "get":
+        body = f"let _v: f64 = a.get::<{n}>(); String::new()"
+    elif form in ("floor", "ceil", "round", "trunc", "fract"):
+        body = f"d(&a.{form}::<{n}>())"
+    elif form == "format_args":
+        body = f"let f = <{q.rust()}>::format_args({n}, uom::fmt::DisplayStyle::Abbreviation); let _s = format!(\"{{}}\", f.with(a)); String::new()"
+    else:
+        body = f"let _s = format!(\"{{}}\", a.into_format_args({n}, uom::fmt::DisplayStyle::Description)); String::new()"
     return Program(f"(unit {q.module} {um})", [("a", q.rust())], body, f"{form}::<{um}::{unit}>")
 
 
